@@ -210,6 +210,7 @@ def write_evidence(pid, mod, tier, seed, results, viol, known, herr, inconc, wal
     meta = getattr(mod, "META", {})
     claims_by_status = {}
     decided_paths = 0
+    claimed_paths = 0
     samples = []
     functions = set()
     aten = set()
@@ -227,6 +228,8 @@ def write_evidence(pid, mod, tier, seed, results, viol, known, herr, inconc, wal
                     dec = True
             if dec:
                 decided_paths += 1
+            if p.get("claims"):
+                claimed_paths += 1
         ps = r.get("paths", [])
         if ps and len(samples) < 6:
             p = ps[0]
@@ -244,9 +247,13 @@ def write_evidence(pid, mod, tier, seed, results, viol, known, herr, inconc, wal
         "level": meta.get("level", "model_checking"),
         "coverage": {
             "evaluations": max(evaluations, 0),
-            "distinct_nontrivial": decided_paths if meta.get("level", "model_checking") == "model_checking" else
-            sum(r.get("n_paths", 0) for r in results),
-            "rule": "evaluations = SMT queries discharged (path-feasibility, planted-factorisation and claim queries); "
+            "distinct_nontrivial": decided_paths if meta.get("level", "model_checking") == "model_checking" else claimed_paths,
+            "rule": ("evaluations = SMT queries discharged (selector-feasibility and claim queries); a case is one (configuration, "
+                     "execution path) of the real code = one combination of the symbolic selectors (crash point / structure / "
+                     "aliasing pattern / call history) and branch decisions; it is counted as non-trivial when at least one claim "
+                     "was evaluated on it (of these, %d had a claim decided by a solver call); paths are distinct by construction "
+                     "(distinct decision prefixes)" % decided_paths)
+            if meta.get("level", "model_checking") != "model_checking" else "evaluations = SMT queries discharged (path-feasibility, planted-factorisation and claim queries); "
                     "a case is one (configuration, execution path) of the real code run on symbolic tensors; it is counted as "
                     "non-trivial when at least one claim on it was decided by a solver call (not by constant folding); "
                     "paths are distinct by construction (distinct branch-decision prefixes)",
